@@ -20,6 +20,19 @@ RU == { <<P("a", C("1")), P("b", C("2")), P("c", C("3"))>>,
         <<P("a", E), P("b", C("2")), P("c", E)>>,
         <<P("d", C("9"))>>,
         <<P("b", E), P("a", C("1"))>> }
+\* wide records: the ordered map behind a record switches to a hashed index at 12 fields (and the harness runs these
+\* cases with --hash-records, --no-hash-records and neither): 14 fields, 14 reversed with empties, exactly 12, and 11
+\* (which template / unsparsify -f / nest explode push over the threshold)
+W1 == <<P("a", C("1")), P("b", C("2")), P("c", C("3")), P("d", C("4")), P("e", C("5")), P("f", C("6")), P("g", C("7")),
+        P("h", C("8")), P("i", C("9")), P("j", C("0")), P("l", C("p")), P("m", C("q")), P("n", C("r")), P("o", C("s"))>>
+W2 == <<P("o", E), P("n", C("r")), P("m", C("2")), P("l", C("p")), P("j", E), P("i", C("9")), P("h", C("8")),
+        P("g", C("7")), P("f", C("6")), P("e", C("5")), P("d", C("4")), P("c", E), P("b", C("2")), P("a", C("1"))>>
+W3 == <<P("c", C("3")), P("a", C("1")), P("e", C("5")), P("f", C("6")), P("g", C("7")), P("h", C("8")), P("i", C("9")),
+        P("j", C("0")), P("l", C("p")), P("m", C("q")), P("n", C("r")), P("b", C("2"))>>
+W4 == <<P("b", C("2")), P("e", C("5")), P("f", E), P("g", C("7")), P("h", C("8")), P("i", C("9")), P("j", C("0")),
+        P("l", C("p")), P("m", C("q")), P("a", C("1")), P("c", C("3"))>>
+WideStreams == {<<W1>>, <<W2>>, <<W3>>, <<W4>>, <<W1, W2, <<P("b", C("3")), P("d", C("4"))>>, W4, W3>>}
+
 \* further shapes for the per-record verbs: one field, four fields all empty, four fields starting late in the alphabet
 RX == { <<P("a", C("1"))>>,
         <<P("c", E), P("d", E), P("a", E), P("b", E)>>,
@@ -39,9 +52,9 @@ Fwd == << <<P("a", C("1")), P("b", C("2")), P("c", C("3"))>>,
           <<P("b", E), P("a", C("1"))>> >>
 ASSUME SetOf(Fwd) = RU \cup RX
 LongStreams == {Fwd, Rev(Fwd), Fwd \o Fwd}
-Streams1 == StreamsOver(RU \cup RX, MaxLen1) \cup LongStreams
-StreamsM == StreamsOver(RU, MaxLen1 + 1)      \* verbs emitting several records per record
-StreamsN == StreamsOver(RU, MaxLen)          \* whole-stream verbs
+Streams1 == StreamsOver(RU, MaxLen1) \cup StreamsOver(RX, 1) \cup LongStreams \cup WideStreams
+StreamsM == StreamsOver(RU, MaxLen1 + 1) \cup WideStreams      \* verbs emitting several records per record
+StreamsN == StreamsOver(RU, MaxLen) \cup WideStreams          \* whole-stream verbs
 
 \* field lists: present / absent (z) / overlapping / repeated / all, in and out of record order
 Fs == {<<"a">>, <<"b", "a">>, <<"a", "b">>, <<"c", "a", "c">>, <<"z">>, <<"a", "z", "d">>, <<"d", "b", "a", "c">>, <<"b", "b">>}
@@ -66,12 +79,13 @@ ConfigsGeneral1 ==           \* per-record verbs over Streams1
   \cup {Cfg("fill-empty", o, <<>>, <<>>, w) : o \in {"", "-S"}, w \in {None, X, <<C("0")>>}}
   \cup {Cfg("unsparsify-f", "", f, <<>>, w) : f \in {<<"a">>, <<"z", "a", "z", "c">>, <<"b", "d">>, <<"z">>}, w \in {None, X}}
   \cup {Cfg("altkv", "", <<>>, <<>>, None)}
-ConfigsGeneralM ==           \* several records per record, over StreamsM
+ConfigsGeneralM ==           \* several records per record, over StreamsM (and unsparsify --fill-with '' once more)
+       {Cfg("unsparsify", "", <<>>, <<>>, <<E>>)} \cup
        {Cfg("reshape-w2l", o, f, <<"k", "v">>, None) : o \in {"-i", "-r"},
           f \in {<<"a">>, <<"a", "b">>, <<"b", "a">>, <<"c", "z">>, <<"a", "a">>, <<"z">>, <<"d", "c", "b", "a">>, <<"b", "c">>}}
 ConfigsGeneralN ==           \* whole-stream verbs over StreamsN
        {Cfg("regularize", "", <<>>, <<>>, None)}
-  \cup {Cfg("unsparsify", "", <<>>, <<>>, w) : w \in {None, X, <<E>>}}
+  \cup {Cfg("unsparsify", "", <<>>, <<>>, w) : w \in {None, X}}
 
 \* ---- unspace: keys and values with spaces; the third record collides under the default filler
 URU == { <<P("a b", <<"c", " ", "d">>), P("e", C("f"))>>,
@@ -109,12 +123,21 @@ NP(fs, ps) == { <<P("a", Join(<<Pair(C("p"), C("1"), ps), Pair(C("q"), C("2"), p
                 <<P("a", Join(<<Pair(C("p"), C("1"), ps), Pair(<<"q", "r">>, E, ps), Pair(C("s"), <<"3", "4">>, ps)>>, fs))>>,
                 <<P("b", C("1")), P("c", C("2"))>>,
                 <<P("c", C("5")), P("a", Pair(C("q"), C("7"), ps))>> }
+\* wide companions: field a in the middle of 13 / at the end of 12 fields
+WideOthers == SubSeq(W1, 2, 7)
+WideTail == SubSeq(W1, 8, 14)
+NVW(fs) == { <<WideOthers \o <<P("a", Join(<<C("p"), C("q"), C("r")>>, fs))>> \o WideTail>>,
+             <<SubSeq(W4, 1, 9) \o <<P("c", C("3")), P("d", E)>> \o <<P("a", Join(<<C("q"), C("p")>>, fs))>>,
+               <<P("a", C("s")), P("b", C("1"))>>>> }
+NPW(fs, ps) == { <<WideOthers \o <<P("a", Join(<<Pair(C("p"), C("1"), ps), Pair(C("q"), C("2"), ps)>>, fs))>> \o WideTail>>,
+                 <<<<P("a", Join(<<Pair(C("x"), C("1"), ps), Pair(C("y"), E, ps), Pair(C("z"), C("3"), ps)>>, fs))>> \o SubSeq(W4, 1, 9),
+                   <<P("b", C("1")), P("c", C("2"))>>>> }
 NestFs == {<<"a">>, <<"z">>}
 ExplodeRecordsCases ==
        UNION {{[c |-> Cfg("nest-explode-records", o, f, p, None), s |-> s] :
-                 o \in {"explode-values-records", "evar"}, f \in NestFs, s \in StreamsOver(NV(p[1]), MaxLen1 + 1)} : p \in Seps}
+                 o \in {"explode-values-records", "evar"}, f \in NestFs, s \in StreamsOver(NV(p[1]), MaxLen1 + 1) \cup NVW(p[1])} : p \in Seps}
   \cup UNION {{[c |-> Cfg("nest-explode-records", "explode-pairs-records", f, p, None), s |-> s] :
-                 f \in NestFs, s \in StreamsOver(NP(p[1], p[2]), MaxLen1 + 1)} : p \in Seps}
+                 f \in NestFs, s \in StreamsOver(NP(p[1], p[2]), MaxLen1 + 1) \cup NPW(p[1], p[2])} : p \in Seps}
 \* implode across fields: what explode produces, and fields out of sequence / apart / with a gap
 OddExploded == { <<P("a_1", C("p")), P("b", C("1")), P("a_2", C("q"))>>,
                  <<P("a_2", C("p")), P("a_1", C("q"))>>,
@@ -122,24 +145,26 @@ OddExploded == { <<P("a_1", C("p")), P("b", C("1")), P("a_2", C("q"))>>,
                  <<P("c", C("2")), P("a_1", C("p")), P("a_2", C("q")), P("a_3", C("r")), P("b", C("1"))>> }
 NestFieldsCases ==
        UNION {{[c |-> Cfg("nest-fields", "explode-values-fields", f, p, None), s |-> s] :
-                 f \in NestFs, s \in StreamsOver(NV(p[1]), MaxLen1 + 1)} : p \in Seps}
+                 f \in NestFs, s \in StreamsOver(NV(p[1]), MaxLen1 + 1) \cup NVW(p[1])} : p \in Seps}
   \cup UNION {{[c |-> Cfg("nest-fields", "explode-pairs-fields", f, p, None), s |-> s] :
-                 f \in NestFs, s \in StreamsOver(NP(p[1], p[2]), MaxLen1 + 1)} : p \in Seps}
+                 f \in NestFs, s \in StreamsOver(NP(p[1], p[2]), MaxLen1 + 1) \cup NPW(p[1], p[2])} : p \in Seps}
   \cup UNION {{[c |-> Cfg("nest-fields", "implode-values-fields", <<"a">>, p, None),
                 s |-> Expected(Cfg("nest-fields", "explode-values-fields", <<"a">>, p, None), s)] :
-                 s \in StreamsOver(NV(p[1]), MaxLen1 + 1)} : p \in Seps}
+                 s \in StreamsOver(NV(p[1]), MaxLen1 + 1) \cup NVW(p[1])} : p \in Seps}
   \cup {[c |-> Cfg("nest-fields", "implode-values-fields", f, <<";", ":">>, None), s |-> s] :
                  f \in NestFs, s \in StreamsOver(OddExploded, MaxLen1 + 1)}
 \* implode across records: what explode produces, and hand-made streams (same other fields at a distance, field
 \* a at another position, records without a)
+IW(x) == WideOthers \o <<P("a", C(x))>> \o WideTail
+IRW == { <<IW("p"), IW("q")>>, <<IW("p"), <<P("a", C("r")), P("b", C("2"))>>, W3, IW("q"), <<P("a", C("s"))>> \o SubSeq(W3, 3, 12)>> }
 IRU == { <<P("a", C("p")), P("b", C("1"))>>, <<P("a", C("q")), P("b", C("1"))>>, <<P("a", C("r")), P("b", C("2"))>>,
          <<P("b", C("1"))>>, <<P("b", C("1")), P("a", C("s"))>>, <<P("a", C("p")), P("b", C("1")), P("c", C("2"))>> }
 ImplodeRecordsCases ==
        UNION {{[c |-> Cfg("nest-implode-records", o, <<"a">>, p, None),
                 s |-> Expected(Cfg("nest-explode-records", "explode-values-records", <<"a">>, p, None), s)] :
-                 o \in {"implode-values-records", "ivar"}, s \in StreamsOver(NV(p[1]), MaxLen1 + 1)} : p \in Seps}
+                 o \in {"implode-values-records", "ivar"}, s \in StreamsOver(NV(p[1]), MaxLen1 + 1) \cup NVW(p[1])} : p \in Seps}
   \cup {[c |-> Cfg("nest-implode-records", "implode-values-records", f, p, None), s |-> s] :
-                 f \in NestFs, p \in Seps, s \in StreamsOver(IRU, MaxLen)}
+                 f \in NestFs, p \in Seps, s \in StreamsOver(IRU, MaxLen) \cup IRW}
 
 \* ---- reshape long-to-wide: key field c, value field d; rectangular and ragged groups, repeated keys, records
 \* lacking the key or the value field, groups differing in the order of their other fields
@@ -148,11 +173,26 @@ LRU == { <<P("a", C("1")), P("c", C("5")), P("d", C("1"))>>, <<P("a", C("1")), P
          <<P("a", C("1"))>>, <<P("c", C("5")), P("d", C("7"))>>,
          <<P("a", C("1")), P("b", C("1")), P("c", C("5")), P("d", C("8"))>>, <<P("a", C("1")), P("c", C("5"))>>,
          <<P("c", C("6")), P("a", C("1")), P("d", C("9"))>>, <<P("b", C("1")), P("a", C("1")), P("c", C("6")), P("d", E)>> }
+LW(k, v) == SubSeq(W1, 5, 14) \o <<P("a", C("1")), P("b", C("2"))>> \o <<P("c", C(k)), P("d", C(v))>>
+LRW == { <<LW("5", "1"), LW("6", "2")>>,
+         <<LW("5", "1"), <<P("a", C("1")), P("c", C("5")), P("d", C("1"))>>, LW("6", "2"), <<P("a", C("1")), P("c", C("6")), P("d", C("2"))>>>> }
+LRUCore == {r \in LRU : r[1][1] = "a" /\ Len(r) = 3} \cup {<<P("a", C("1"))>>}      \* the rectangular core and a pass-through
 L2W == Cfg("reshape-l2w", "-s", <<>>, <<"c", "d">>, None)
 L2WCases ==
-       {[c |-> L2W, s |-> s] : s \in StreamsOver(LRU, MaxLen)}
+       {[c |-> L2W, s |-> s] : s \in StreamsOver(LRU, IF MaxLen > 3 THEN 3 ELSE MaxLen) \cup StreamsOver(LRUCore, MaxLen) \cup LRW}
   \cup {[c |-> Cfg("reshape-l2w", "-s", <<>>, <<"k", "v">>, None),
          s |-> Expected(Cfg("reshape-w2l", "-i", f, <<"k", "v">>, None), s)] : f \in {<<"a", "b">>, <<"b">>}, s \in StreamsM}
+
+\* ---- two verbs chained (the second works on the records the first left behind)
+Chain(name) == Cfg("chain", name, <<>>, <<>>, None)
+ChainCases ==
+       {[c |-> Chain(n), s |-> s] : s \in Streams1,
+          n \in {"rename-back", "rename-cut", "rename-r-reorder", "rename-sort", "reorder-rename", "reorder-cut", "cut-template",
+                 "label-rename", "unsparsify-sparsify", "template-reorder"}}
+  \cup {[c |-> Chain(n), s |-> s] : s \in StreamsM, n \in {"reshape-back", "reshape-cut", "unsparsify-regularize"}}
+  \cup {[c |-> Chain(n), s |-> s] : s \in StreamsOver(NV(";"), MaxLen1 + 1) \cup NVW(";"),
+          n \in {"nest-fields-back", "nest-records-back", "nest-fields-rename"}}
+  \cup {[c |-> Chain("nest-pairs-cut"), s |-> s] : s \in StreamsOver(NP(";", ":"), MaxLen1 + 1) \cup NPW(";", ":")}
 
 Cases ==
        {[c |-> c, s |-> s] : c \in ConfigsGeneral1, s \in Streams1}
@@ -161,6 +201,6 @@ Cases ==
   \cup {[c |-> c, s |-> s] : c \in ConfigsUnspace, s \in StreamsOver(URU, MaxLen1 + 1)}
   \cup {[c |-> c, s |-> s] : c \in ConfigsSec2gmt, s \in StreamsOver(SRU, MaxLen1 + 1)}
   \cup {[c |-> c, s |-> s] : c \in ConfigsCase, s \in StreamsOver(CRU, MaxLen1 + 1)}
-  \cup ExplodeRecordsCases \cup NestFieldsCases \cup ImplodeRecordsCases \cup L2WCases
+  \cup ExplodeRecordsCases \cup NestFieldsCases \cup ImplodeRecordsCases \cup L2WCases \cup ChainCases
 
 =============================================================================
